@@ -39,3 +39,6 @@ func VerifBoringGREASE(word uint16, index int) uint16 {
 
 // VerifGreaseIndexes returns the number of GREASE seed words.
 func VerifGreaseIndexes() int { return ssl_grease_last_index }
+
+// VerifCurveID returns the negotiated key-exchange group of a connection.
+func VerifCurveID(u *UConn) CurveID { return u.Conn.curveID }
